@@ -1050,8 +1050,10 @@ class HttpPayloadParser:
                             size_b = size_b.strip()
 
                         if not re.fullmatch(HEXDIGITS, size_b):
+                            # The message ends up in the 400 response: keep
+                            # it encodable whatever bytes the line holds.
                             exc = TransferEncodingError(
-                                chunk[:pos].decode("ascii", "surrogateescape")
+                                chunk[:pos].decode("ascii", "backslashreplace")
                             )
                             set_exception(self.payload, exc)
                             raise exc
